@@ -19,8 +19,8 @@ CONFIG = dict(
                "instances, all zoo methods, malformed routes, ids 0/1/127/128/16383/16384/2^32-1 and a stream of ids >= 2^32 (2^32, 2^32+5, 2^33+1, 2^64-1), valid/undecodable/empty/null payloads, slow and "
                "late handlers, 31 s forward timeouts) run through the real node and compared as multisets per connection.",
     level_note="Partial: handlers complete exactly once (never/twice excluded by the Beh type); requests are independent in the model (shared "
-               "Service.Handlers bookkeeping is C01's property, mailbox delivery C09's); ids >= 2^32 are inside the check as known finding D19 (model truncates like the code, the spec monitor reports C02/request-id-truncated); routes are "
-               "valid UTF-8 (protobuf string); handler error texts are non-empty (msgs.Response.Error == \"\" means success); the timeout instant "
+               "Service.Handlers bookkeeping is C01's property, mailbox delivery C09's); ids >= 2^32 are inside the check as known finding D19 (model truncates like the code, the spec monitor reports C02/request-id-truncated); routes that are not "
+               "valid UTF-8 are modelled (forwarded envelope not serialisable -> error response); handler error texts are non-empty (msgs.Response.Error == \"\" means success); the timeout instant "
                "is nominal (31 s, observed at 5 s granularity); TCP acceptor, actor remote and etcd are bypassed by the engine.",
     lean_targets=["Cell2v.Props.C02", "modeld_c02"],
     driver="modeld_c02",
@@ -28,7 +28,7 @@ CONFIG = dict(
     audit="Audit/C02.lean",
     required_theorems=["request_one_response_partial", "request_one_response_full_fails", "request_answered_with_truncated_id",
                        "request_served_by_target", "response_origin_is_target", "relay_unchanged",
-                       "unserviceable_gets_error", "notify_once_no_response", "history_conservation", "history_exactly_one", "d20_witness", "unserialisable_result"],
+                       "unserviceable_gets_error", "notify_once_no_response", "history_conservation", "history_exactly_one", "d20_witness", "unserialisable_result", "unserialisable_envelope_gets_error"],
     harness_pkg="./c02",
     mode="diff",
     reset_prefix="reset",
@@ -43,7 +43,7 @@ CONFIG = dict(
          "binds of the routing key to chat-1/chat-2/unknown/dead/wrong-type/empty; bursts of 1-6 messages written by all clients at once "
          "(route: 85% type{gate,chat,hall,room} x group{zoo,nogrp,\"\"} x method{echo,fail,boom,slow,late,tell,nosuch,\"\"}, 15% malformed; id: 0 and "
          "varint boundaries or random, unique per connection also modulo 2^32; 1 message in 64 carries an id >= 2^32 on a serviceable route (known finding D19); payload 80% valid with a case-unique value, else undecodable/empty/wrong type/null); "
-         "new clients that pipeline 1-4 messages behind their handshake while the front's owner goroutine is kept busy (AddSession posted, not yet run; repaired defect D20); re-handshakes on working connections with replies in flight (hs/ack; data packets sent in between are ignored by the reader), handlers whose result cannot be marshalled (zoo.nan), cases that start with the front's service-request counter 1-4 below MaxReqId (wrap); 5 s time steps; a final 45 s flush. One evaluation = one op; observation = per-connection multiset of (kind,id,errflag,payload hex) "
+         "new clients that pipeline 1-4 messages behind their handshake while the front's owner goroutine is kept busy (AddSession posted, not yet run; repaired defect D20); re-handshakes on working connections with replies in flight (hs/ack; data packets sent in between are ignored by the reader), handlers whose result cannot be marshalled (zoo.nan), cases that start with the front's service-request counter 1-4 below MaxReqId (wrap); routes that are not valid UTF-8 (the forwarded envelope cannot be serialised); one flood per run: a client that stops reading, pipelines 10080 requests (more than the session's 9999-slot send queue) and resumes; 5 s time steps; a final 45 s flush. One evaluation = one op; observation = per-connection multiset of (kind,id,errflag,payload hex) "
          "read by the clients + multiset of handler invocations per service; non-trivial = something was read or invoked",
     trusted_base=[
         "Lean 4.33.0 kernel; axioms audited per theorem (propext, Classical.choice, Quot.sound)",
@@ -57,7 +57,7 @@ CONFIG = dict(
         "every handler completes exactly once (a handler that never completes or completes twice is user misbehaviour, excluded)",
         "a back-end reply that is not the msgs.Response built by ProcessForwardMsg (other type, wrong SessionId/ClientReqId) is dropped silently by the front (theorem mismatched_reply_dropped); ProcessForwardMsg itself echoes both fields",
         "a request forwarded to an instance of the wrong type, to a PID without a living actor, or to a handler slower than 30 s is answered by the request-timeout error",
-        "routes valid UTF-8 and <= 255 bytes; handler error texts non-empty; handler results JSON-serialisable",
+        "routes <= 255 bytes (a route that is not valid UTF-8 is modelled: the forwarded envelope cannot be serialised -> one error response; a genuine U+FFFD in a route is not generated); handler error texts non-empty; handler results JSON-serialisable",
         "the connection stays open until the response is written (session life cycle is C05)",
         "a request of a history is one the session's reader delivered: data packets sent between a repeated Handshake packet and its HandshakeAck are ignored by ClientSession.processPacket (modelled in the driver, not a theorem)",
         "a forwarded handler result the client serializer cannot marshal is relayed as a success with an empty body (ProcessForwardMsg ignores the Marshal error; theorem unserialisable_result states it; the spec accepts error or empty success there)",
